@@ -69,12 +69,12 @@ LEVEL_NOTE = ("Trusted: Lean kernel (+ leanchecker in the thorough tier); the ha
               "List/ObjectCache.hpp, XalanDOMString.{hpp,cpp}, XalanDOMStringPool/HashTable.cpp, XalanBitmap.{hpp,cpp} (checked "
               "by the correspondence run, bounded by generator coverage); harnesses, generators and python references. "
               "Modelled, not verified: placement new / destructor calls themselves (observed through the instrumented element "
-              "class), the prev/next pointer surgery of XalanList for cross-list splice, range splice and swap (executable heap model "
+              "class), the prev/next pointer surgery of XalanList for range splice and swap (executable heap model "
               "compared with the real code under ASan; the other member functions are proved on the heap), "
               "capacities of bucket vectors and of deque blocks, memory-manager failure paths, the char* (transcoding) "
               "overloads of XalanDOMString, the XALAN_OBJECT_CACHE_KEEP_BUSY_LIST variant of XalanObjectCache (not compiled), "
-              "the arena allocator behind XalanDOMStringPool. Partial theorems: list splice/swap histories (splice inside "
-              "one list is proved at heap level; splice between two lists, range splice and swap only run in the "
+              "the arena allocator behind XalanDOMStringPool. Partial theorems: list splice/swap histories (single-node splice, inside "
+              "one list and between two lists, is proved at heap level; range splice and swap only run in the "
               "correspondence); deque and list event histories over the primitive alphabets push/pop/clear and "
               "insert/erase/clear, map events per operation; invariant 'bucket size <= bucket capacity' observed, not proved.")
 DESIGN_REF = "DESIGN.md section 5, C20; design/C20.md"
@@ -134,6 +134,7 @@ THEOREMS = [
     "XalanModel.Props.C20.plist_history",
     "XalanModel.Props.C20.plist_splice_same_refines",
     "XalanModel.Props.C20.plist_move_refines",
+    "XalanModel.Props.C20.plist_splice_cross_refines",
     "XalanModel.Props.C20.set_step_refines",
     "XalanModel.Props.C20.objcache_get_refines",
     "XalanModel.Props.C20.objcache_release_put_refines",
